@@ -452,8 +452,10 @@ func (c *Cfg) genField(r *rand.Rand, depth int, sibOptional []string) *Field {
 		}
 	case x < 84: // map
 		switch y := r.Intn(20); {
-		case y < 11:
+		case y < 9:
 			f.T = MapOf(L(randElemKind(r)))
+		case y < 11:
+			f.T = MapOf(AnyT()) // free-form values: must arrive unchanged
 		case y < 14:
 			f.T = MapOf(SliceOf(L(randElemKind(r))))
 		case y < 16:
@@ -649,6 +651,16 @@ func (c *Case) genValue(r *rand.Rand, t *Type, o Opts, dst reflect.Value, path s
 		mm := map[string]any{}
 		c.genStructDoc(r, t, dst, mm, path, depth+1)
 		return mm
+	case Any:
+		d := 2
+		if c.Conf {
+			d = 0 // the config loader rewrites the keys of free-form objects too: scalars and arrays only
+		}
+		node := randFree(r, d, c.Conf)
+		if node != nil {
+			dst.Set(reflect.ValueOf(node))
+		}
+		return node
 	}
 	text := genLeafText(r, t.K, o)
 	dst.Set(mustParse(t.K, text))
@@ -1315,3 +1327,41 @@ func YAMLCanonical(v any) bool {
 
 // RandOptions declares 2-4 options for a leaf kind.
 func RandOptions(r *rand.Rand, k Kind) []string { return randOptions(r, k) }
+
+// numbers every reader (JSON, YAML) holds exactly; spellings may differ after a YAML round (1e3 -> 1000)
+var freeNumbers = []string{"0", "1", "-1", "255", "-129", "65536", "9223372036854775807", "-9223372036854775808", "9223372036854775808", "18446744073709551615",
+	"0.5", "-1.5", "0.25", "1e3", "12.0", "1E+2", "1024.125", "3"}
+
+// randFree draws a free-form JSON value (for interface-typed fields).
+func randFree(r *rand.Rand, depth int, noObjects bool) any {
+	x := r.Intn(100)
+	if depth <= 0 && x >= 70 {
+		x = r.Intn(70)
+	}
+	switch {
+	case x < 6:
+		return nil
+	case x < 16:
+		return r.Intn(2) == 0
+	case x < 45:
+		return json.Number(freeNumbers[r.Intn(len(freeNumbers))])
+	case x < 70:
+		return RandString(r)
+	case x < 85 || noObjects:
+		n := r.Intn(4)
+		arr := make([]any, n)
+		for i := range arr {
+			arr[i] = randFree(r, depth-1, noObjects)
+		}
+		return arr
+	default:
+		m := map[string]any{}
+		for i, n := 0, r.Intn(4); i < n; i++ {
+			m[RandString(r)] = randFree(r, depth-1, noObjects)
+		}
+		return m
+	}
+}
+
+// OutOfRangeText picks a literal of kind k just outside g ("" if there is none inside the kind).
+func OutOfRangeText(r *rand.Rand, k Kind, g *Range) string { return outOfRangeText(r, k, g) }
